@@ -90,6 +90,27 @@ CHECKS = {
          "(thorough 6): after every operation .scenarios equals the reference expansion of the current tables.",
          "Trusts the reference expansion in checks/c06_outline_expansion.py; cell values containing '<' or '>' are excluded (statement: other column names as plain text); canonical abstraction validated by a no-dedup search to a smaller depth.",
          "DESIGN.md section 5, C06"),
+
+ "C15": ("exploration",
+         "exhaustive enumeration of small programs x ordered formatter line-ups x switches on the real runner: recorded event streams checked by a grammar automaton fed by the reference interpreter, JSON/plain/progress outputs parsed back and compared with the model",
+         "Programs with backgrounds at both levels, outlines, rules, tagged (hidden) and failing scenarios, step tables/doc-strings/unicode, <=1 (thorough <=2) outcome deviations x {show_skipped, tags, dry-run, stop, timings/multiline/colour} "
+         "x every ordered line-up of size 1-2 (size 3 over a core) of the nine built-in formatters between two recorders: stream grammar (n announced steps, m processed steps predicted by the reference interpreter, i-th result = i-th step with its "
+         "final status, eof/close), identical streams for all formatters, JSON validity + element-wise agreement with the model + JsonParser read-back, plain/progress2/progress3 showing every processed step once, output independent of the line-up.",
+         "Trusts vlib/refrun.py for the set of processed steps and the regex readers for the text formats; one recorded behave defect (dry-run + undefined step) is listed in known_findings.json.",
+         "DESIGN.md section 5, C15"),
+ "C08": ("exploration",
+         "exhaustive enumeration of old-style CNF tag formulas x decorations x presentations x protocol routes with complete truth tables, plus all v2 renderings and mixed texts under auto-detection",
+         "All CNF formulas up to 2x2 (thorough 3x3 styled) over signed tags with -/~ negation, optional @, :limit suffixes, as list / tuple / string / wide-blank string, under V1 and AUTO_DETECT (explicit, via TagExpressionProtocol.use, via Configuration --tags): "
+         "complete truth tables against AND-of-ORs; every C07 v2 rendering under AUTO_DETECT keeps its v2 meaning; texts mixing the v1 negation prefix with v2 operators must raise TagExpressionError.",
+         "Trusts the CNF evaluator; a lone 'a:3' is claimed by both dialects (old-style tag with limit / new-style literal) and both readings are accepted; limits are parsed but not enforced by behave and not checked.",
+         "DESIGN.md section 5, C08"),
+ "C19": ("exploration",
+         "exhaustive enumeration of active-tag multisets x current-value assignments x value kinds x provider kinds x matcher variants against the statement's formula; shipped providers against sys.version_info/platform",
+         "All tag multisets up to size 3 (thorough 4, 5 with plain strings) over a 14-tag alphabet (positive/negative/alias prefixes, dotted and unknown categories, non-active tags) x 36 value assignments x 10 value kinds "
+         "(plain, ValueObject, numeric eq/ge/le, bool, lazy callable, malformed) x {dict, ActiveTagValueProvider, CompositeActiveTagValueProvider (queried twice)} x custom prefixes/separators/CompositeTagMatcher; "
+         "should_exclude_with / should_run_with compared with the formula of the statement; behave.active_tag.python and python_feature categories against the running interpreter.",
+         "Trusts the 20-line formula evaluator; only the running interpreter/platform is witnessed for the shipped providers.",
+         "DESIGN.md section 5, C19"),
 }
 PENDING_REASON = "check not built yet in this round (planned, see DESIGN.md section 5); nothing is claimed for it so far"
 
